@@ -93,13 +93,16 @@ def build(cls, variant):
     y = QGlobalAveragePooling2D(average_quantizer="quantized_bits(6,0,1)")(i)
   elif cls in ("QSimpleRNN", "QLSTM", "QGRU"):
     i = L.Input((4, 3))
-    kw = dict(kernel_quantizer=wq(variant, 2), recurrent_quantizer=wq("fixed", 2), bias_quantizer=BQ_)
+    kw = dict(kernel_quantizer=wq(variant, 2), recurrent_quantizer=wq("fixed", 2), bias_quantizer=BQ_,
+              use_bias=variant != "ternary_auto")
     if cls == "QGRU":
       kw["reset_after"] = False
     y = getattr(qkeras, cls)(3, **kw)(i)
   elif cls == "QBidirectional":
     i = L.Input((4, 3))
-    y = QBidirectional(QLSTM(2, kernel_quantizer=wq(variant, 2), recurrent_quantizer=wq("fixed", 2), bias_quantizer=BQ_))(i)
+    # (two variants: no bias, but the bias quantizer is configured all the same)
+    y = QBidirectional(QLSTM(2, kernel_quantizer=wq(variant, 2), recurrent_quantizer=wq("fixed", 2), bias_quantizer=BQ_,
+                             use_bias=variant not in ("po2", "binary_axis")))(i)
   elif cls == "QConv2DBatchnorm":
     i = L.Input((5, 5, 2))
     # (without a bias of its own the folded bias (0 - mean) * gamma / sqrt(var + eps) + beta is still quantized)
